@@ -266,16 +266,26 @@ def rule_public(ctx):
     # `not (a or b)` or `not a and not b` make no difference
     from .. import paths as P
     f = ctx.func('peer', 'Peer.is_public')
-    ip_branch = name_branch = None
-    for pth in P.returns(f.node):
-        on_ip = P.truthy(pth, 'self.ip_address')
-        if on_ip is None:
-            ip_branch = name_branch = False
-            break
-        if on_ip:
-            ip_branch = (ip_branch is not False) and q.bool_equiv(pth.value, 'self.is_valid and not self.ip_address.is_private')
-        else:
-            name_branch = (name_branch is not False) and q.bool_equiv(pth.value, "self.is_valid and self.host != 'localhost'")
+
+    def truth_formula(fn_node, on_ip_wanted):
+        """the condition under which the property returns a true value on the IP / named-host side: the disjunction over the
+        return paths of (the path's decisions and the returned expression) - as source text for bool_equiv"""
+        terms = []
+        for pth in P.returns(fn_node):
+            on_ip = P.truthy(pth, 'self.ip_address')
+            if on_ip is not None and on_ip != on_ip_wanted:
+                continue          # (a path that does not look at the address kind belongs to both sides)
+            parts = []
+            for t, pol in pth.decisions():
+                if norm(t) == 'self.ip_address':
+                    continue
+                parts.append(f'({norm(t)})' if pol else f'(not ({norm(t)}))')
+            parts.append(f'({norm(pth.value)})')
+            terms.append('(' + ' and '.join(parts) + ')')
+        return ' or '.join(terms) if terms else None
+    fi, fn_ = truth_formula(f.node, True), truth_formula(f.node, False)
+    ip_branch = fi is not None and q.bool_equiv(fi, 'self.is_valid and not self.ip_address.is_private')
+    name_branch = fn_ is not None and q.bool_equiv(fn_, "self.is_valid and self.host != 'localhost'")
     ctx.check(bool(ip_branch) and bool(name_branch), 'C19.PUBLIC', ctx.key(f, None, 'both branches'),
               'an IP host is public iff valid and not private; a named host iff valid and not localhost',
               f'is_public does not require validity plus not-private (IP: {ip_branch}) / not-localhost (name: {name_branch})', loc=ctx.loc(f, f.node))
